@@ -435,15 +435,15 @@ func (x *gRun) doDelBlocked(k int) {
 		delete(m.store, k)
 	}
 	reached := make(chan struct{}, 1)
-	x.g.Other = func(point int, arg uint64) {
+	x.g.SetOther(func(point int, arg uint64) {
 		if point == ristretto.VPDelAfterStore {
 			select {
 			case reached <- struct{}{}:
 			default:
 			}
 		}
-	}
-	defer func() { x.g.Other = nil }()
+	})
+	defer x.g.SetOther(nil)
 	done := make(chan struct{})
 	go func() { x.cl.Del(k); close(done) }()
 	select {
